@@ -366,6 +366,16 @@ func nasRunCase(r *report.Report, l *report.Local, prop string, c nasCase) {
 		if derr != nil {
 			return nasAbstract{}, derr
 		}
+		// the header of the decoded message, through its accessors
+		if t.EPD == 0x7e {
+			if e, mt := m.GmmHeader.GetExtendedProtocolDiscriminator(), m.GmmHeader.GetMessageType(); e != 0x7e || mt != t.MsgType {
+				r.Violate(key("decoded-header"), cs, fmt.Sprintf("5GMM header reads EPD %#x message type %#x, the message is 7e / %#x", e, mt, t.MsgType), nil)
+			}
+		} else if t.EPD == 0x2e {
+			if e, mt := m.GsmHeader.GetExtendedProtocolDiscriminator(), m.GsmHeader.GetMessageType(); e != 0x2e || mt != t.MsgType || m.GsmHeader.Octet[1] != b[1] || m.GsmHeader.Octet[2] != b[2] {
+				r.Violate(key("decoded-header"), cs, fmt.Sprintf("5GSM header reads EPD %#x PSI %d PTI %d message type %#x, the message is 2e %d %d %#x", e, m.GsmHeader.Octet[1], m.GsmHeader.Octet[2], mt, b[1], b[2], t.MsgType), nil)
+			}
+		}
 		// a value array longer than the IE's length must hold nothing beyond that length (octets of whatever followed on
 		// the wire would be read by every accessor of an absent octet: the SD of an SST-only S-NSSAI)
 		if stray := nasStrayOctets(reflect.ValueOf(m), ""); stray != "" {
